@@ -44,7 +44,7 @@ def cases(rng, tier):
         out.append({'kind': 'sig', 'api': 'split', 'args': [n, sh_], 'lines': [f'rng split {n} {int(sh_)}']})
     nprog = 6 if tier == 'quick' else 40
     for k in range(nprog):       # boundary seeds first
-        out.append({'kind': 'prog', 'seed': [0, 1, 2 ** 32 - 1][k] if k < 3 else rng.randrange(2 ** 31), 'variant': rng.randrange(4), 'hashseeds': 3 if tier == 'quick' else 12, 'lines': ['rng dropout 1 0']})
+        out.append({'kind': 'prog', 'seed': [0, 1, 2 ** 32 - 1][k] if k < 3 else rng.randrange(2 ** 31), 'variant': rng.randrange(4), 'hashseeds': 6 if tier == 'quick' else 12, 'lines': ['rng dropout 1 0']})
     for c in out:
         c['desc'] = {k: v for k, v in c.items() if k != 'lines'}
     return out
@@ -111,6 +111,9 @@ def program(seed, variant, layout=0):
     if variant >= 2:
         layers.insert(1, nn.BatchNorm1d(6))
     model = nn.Sequential(*layers)
+    conv = nn.Conv1d(2, 3, 2); conv2 = nn.Conv2d(1, 2, (2, 1)); convnb = nn.Conv1d(1, 2, 1, bias=False)     # parameter draws of layers with several parameters
+    for m_ in (conv, conv2, convnb):
+        for p_ in m_.parameters(): add(p_.data)
     nn.init.kaiming_uniform_(model.submodules()[0].weight)
     nn.init.xavier_normal_(model.submodules()[-1].weight)
     opt = (optim.Adam if variant % 2 else optim.SGD)(model.parameters(), lr=0.05)
